@@ -153,21 +153,25 @@ def sampler_check(spec, exprs, inst):
     N, M = spec.N, spec.M
     ts = orc.ts
     for k in range(N):
-        c.assume(ca.tz((ts[k + 1] - ts[k]).e[0]) > 0)        # T > 0: strictly increasing grid
+        nlp.assume_positive(ts[k + 1] - ts[k])        # T > 0: strictly increasing grid
     f = ocp.sampler("smp", [e for _, e in built])
     gist = ocp.gist
-    from vc.core import isolated, fresh_real
+    from vc.core import isolated
     for k in range(N):
         h = (ts[k + 1] - ts[k]) / M
         for l in range(M):
             def one(k=k, l=l, h=h):
-                cc = ctx()
-                tq = fresh_real("tq")
                 t_lo = ts[k] + l * h if l else ts[k]
                 t_hi = ts[k] + (l + 1) * h if l + 1 < M else ts[k + 1]
-                cc.assume(tq >= ca.tz(t_lo.e[0]))
-                cc.assume(tq < ca.tz(t_hi.e[0]))
-                T = ca.MX._raw(1, 1, [tq])
+                if MODEL:
+                    from vc.core import fresh_real
+                    cc = ctx()
+                    tq = fresh_real("tq")                      # ANY query time inside the step
+                    cc.assume(tq >= ca.tz(t_lo.e[0]))
+                    cc.assume(tq < ca.tz(t_hi.e[0]))
+                    T = ca.MX._raw(1, 1, [tq])
+                else:
+                    T = t_lo + 0.37 * (t_hi - t_lo)            # native replay: one query time inside the step
                 res = f(gist, T)
                 res = [res] if not isinstance(res, (tuple, list)) else list(res)
                 d0 = orc.integrator_env(k, l, orc.xk)
@@ -215,5 +219,6 @@ def tasks(tier, prop="C08"):
                     spec = Spec(method=meth, intg=intg or "rk", N=3, M=2, degree=2, grid=dict(g), T=Tk, t0=("unknown",),
                                 ode=E("f", None, ("x", "u", "t")), label=label)
                     sampler_check(spec, [E("q1", 1, ("x", "u", "t")), E("q2", 2, ("x",))], label)
-                out.append(Task(label, fn, kind="bounded", bound=dict(method=meth, intg=intg, N=3, M=2, grid=g, T=list(Tk), query_time="symbolic within each integrator step")))
+                out.append(Task(label, fn, kind="bounded", bound=dict(method=meth, intg=intg, N=3, M=2, grid=g, T=list(Tk), query_time="symbolic within each integrator step"),
+                                replay=dict(harness="task_probe", module="contracts.c08", task=label, tier=tier)))
     return out
